@@ -32,7 +32,8 @@ MANIFEST = {
     "note": "Bounded to the listed structures (<= 233 atoms, 3 frames). Where a docstring gives no formula the cited "
             "paper / in-source comment is used and named in desc_oracles.py (RDF normalisation, DRID, dielectric, "
             "kappa_T, Rg). Not judged (counted): residue pairs whose scheme designates no atom, soft-min overflow of "
-            "float32 exp (documented caveat), inter-chain pairs under contacts='all', skewed-cell distances beyond "
+            "float32 exp (documented caveat), inter-chain pairs under contacts='all', whether terminal OXT/H1-3 belong to "
+            "the side chain (library predicate pinned by test_selection; both readings accepted), skewed-cell distances beyond "
             "half the cell width, degenerate inertia tensors, kappa_T's estimator (ddof 0 or 1), rdf_t period_length. "
             "Element masses, Residue.is_protein and Topology.select are inputs (C04/C12). thermal_expansion_alpha_P "
             "raises NotImplementedError and is not covered.",
@@ -312,7 +313,6 @@ def _contacts(job):
                     want = do.soft_min(sub.ravel(), beta)
                     tol = 8 * EPS32 * (sub.min() + Lsum) + 8 * EPS32 * want
                 got = float(dist[f, k])
-                capdiff = any(tab["residues"][q]["name"] in do.CAPS and memb["lib"][q] != memb["strict"][q] for q in (ra, rb))
                 differs = (ms_a != ml_a or ms_b != ml_b) and ms_a and ms_b
                 want2 = None
                 if scheme.startswith("sidechain") and differs:
@@ -340,7 +340,8 @@ def _contacts(job):
                 else:
                     # the two readings of "side chain" differ for this pair; a value matching neither is a bookkeeping error
                     if abs(got - want2) <= tol:
-                        R.note("side-chain entries equal to the value WITHOUT terminal OXT/H1-3 (chemical reading)")
+                        if r > 1.0:
+                            R.note("side-chain entries equal to the value WITHOUT terminal OXT/H1-3 (chemical reading only)")
                     elif r <= 1.0:
                         # Atom.is_sidechain ("name not in {C,CA,N,O,HA,H}", pinned by tests/test_selection.py::test_sidechain)
                         # counts terminal OXT/H1-3 as side chain; the contact docstring does not define "side chain":
